@@ -28,14 +28,17 @@ from pywbem._cim_types import atomic_to_cim_xml, type_from_name
 from pywbem._tupletree import xml_to_tupletree_sax
 from pywbem._tupleparse import TupleParser
 
-R = Run('8 CIM integer types: 8/16-bit value ranges exhaustive (+-300 beyond), 32/64-bit at boundaries +-3 and seeded '
-        'samples, x all bases 2..36/0, positional+keyword forms, float/bytes/bool/CIMInt/__index__ carriers; '
-        'cimvalue() and the 4 value setters over a 60-value pool x 15 type names (+arrays with None); '
-        'CIMDateTime: all UTC offsets -999..999, calendar/field boundaries and leap days, every second of a day, '
-        'interval days at decimal boundaries up to 99999999, all 4096 asterisk unit masks + partial-field and '
-        'single-position masks x both kinds, copy-ctor/pickle/CIM-XML; reals: all float32 exponents x 10 mantissas, '
-        'all float64 exponents x 6 mantissas, powers of ten, %G switch points, seeded bit patterns, through '
-        'atomic_to_cim_xml + unpack_numeric and PROPERTY/QUALIFIER/QUALIFIER.DECLARATION/KEYVALUE XML')
+R = Run('8 CIM integer types: 8-bit (+-300 beyond range) exhaustive x all bases 2..36/0, positional+keyword x=/base= '
+        'forms, float/bytes/bool/CIMInt/__index__/Decimal carriers; 16-bit exhaustive in 4 basic forms (thorough: every '
+        '5th value in all forms); 32/64-bit at boundaries +-3 in all forms + seeded samples; cimvalue() and init/value= of '
+        'CIMProperty/Qualifier/Parameter/QualifierDeclaration over a 90-value pool (+arrays with None) x 15 type names; '
+        'CIMDateTime: every UTC offset -999..999 x 4 base stamps x 2 tzinfo kinds + string form, calendar '
+        '(7 years x months 0..13 x days 0..32, own leap rule) and field boundaries, every (quick: 3rd) second of a day, '
+        'interval days at all decimal boundaries up to 99999999, all 4096/2048 asterisk unit masks + partial-field + '
+        'each of the 25 single positions x both kinds, copy-ctor/pickle/CIM-XML; reals: all 255 float32 exponents x >=16 '
+        'mantissas, all 2047 float64 exponents x >=8 mantissas, all powers of ten +-1ulp, %G switch points, seeded bit '
+        'patterns (quick 120k/100k, thorough 3M/2M), via atomic_to_cim_xml+unpack_single_value and PROPERTY(.ARRAY)/'
+        'QUALIFIER/QUALIFIER.DECLARATION/KEYVALUE/INSTANCE XML, exact-rational check of the printed text')
 
 QUICK = R.tier != 'thorough'
 RND = random.Random(R.seed)
